@@ -71,7 +71,7 @@ fn run_cases(cases: &str, trace: &str) -> Result<(), String> {
             let text = String::from_utf8_lossy(&first[i]);
             let nobj = text
                 .lines()
-                .filter(|l| l.contains("\"ev\":\"opt\"") || l.contains("\"ev\":\"alt\"") || l.contains("\"ev\":\"reload\""))
+                .filter(|l| l.contains("\"ev\":\"opt\"") || l.contains("\"ev\":\"alt\"") || l.contains("\"ev\":\"reload\"") || l.contains("\"ev\":\"reopt\""))
                 .count();
             let mut c2 = case.clone();
             c2["_again"] = serde_json::json!({"base": nobj});
